@@ -36,6 +36,8 @@ def is_immutable(v: Any, depth: int = 0) -> bool:
     if isinstance(v, ASet):
         return v.frozen and all(is_immutable(x, depth + 1) for x in v.items)
     if isinstance(v, Obj):
+        if v.cls.is_enum and "_name_" in v.attrs:
+            return True  # enum members are immutable singletons
         frozen = any(isinstance(c, ClassInfo) and c.dataclass and c.dataclass["frozen"] for c in v.cls.mro)
         if frozen or v.tuple_items is not None:
             vals = list(v.attrs.values()) + list(v.tuple_items or ())
